@@ -17,6 +17,12 @@ CHECKS = {
              text="One update from a symbolic pre-state constrained only by the coherent-trace invariant, with independent old/new arguments and every constraint subset: coherence of the result, weight = density ratio (branch switches inside the quantifier), discard = old visible values, round trip restores choices with negated weight, Trace.update == explicit call.", ref="3 C03"),
  "C04": dict(technique="inductive step over an arbitrary coherent trace: Jaxpr-to-SMT encoding of regenerate per enumerated selection (z3); definedness decided at trace time",
              text="For each program x selection (none, all, leaves in tuple/dict form, whole sub-calls, complement, union, intersection): tracing must succeed (definedness for all values), unselected leaves are the same term as before, selected leaves are fresh draws with the right law w.r.t. the new parents, weight formula under equal Cond conditions, discard, coherence.", ref="3 C04"),
+ "C06": dict(technique="2-safety over hidden process state on the Jaxpr of seed(f): free key algebra (z3 datatypes) + uninterpreted random bits, IR equality queries",
+             text="seed(f) is traced with a symbolic key and symbolic arguments; the IR is regenerated in perturbed process states (global counter values, interleaved seeded/unseeded draws, cold/warm caches - enumerated) and proved equal for ALL keys and arguments; every key whose bits are drawn derives from the key argument; jit(seed(f)) and each lane of vmap(seed(f)) over keys are proved equal to seed(f). A counter-leaking twin must be refuted.", ref="3 C06"),
+ "C07": dict(technique="key-derivation analysis on the seeded Jaxpr: z3 datatype queries for pairwise key distinctness, symbolic-iteration-index scan analysis, equality of each draw with the documented TFP sampler on its own sub-key",
+             text="On the IR of seeded runs: no two draws use the same key, a drawn key is never also split/folded, no key split twice (exclusive cond branches excepted); every scan body is analysed with a symbolic iteration index (i != j => different keys, any length); each choice equals the documented TFP sampler applied to its own sub-key and the reference parameters (lanes = elements of one batched draw with per-lane parameters, each with own bits).", ref="3 C07"),
+ "C16": dict(technique="CrossHair symbolic execution (z3) of the real Selection.match / sel / Fn.filter / Fn.merge with symbolic names, paths and choice-map shapes; symjax for gf.filter on combinators",
+             text="For ~45 enumerated selection-expression shapes (nesting <= 2) CrossHair confirms over all paths that following the real match chain selects a path iff the documented meaning does (Boolean algebra laws are the pointwise consequences); Fn.filter/Fn.merge partition law on nested dicts with symbolic keys; gf.filter on corpus programs (through modular_vmap) yields exactly the leaves selected per the documented meaning.", ref="3 C16"),
 }
 NA = {}
 
